@@ -692,6 +692,11 @@ func (r *retryableAuthMethod) auth(session []byte, user string, c packetConn, ra
 		if ok != authFailure || err != nil { // either success, partial success or error terminate
 			return ok, methods, err
 		}
+		// Do not retry a method that the server no longer lists among the
+		// methods that can continue.
+		if methods != nil && !slices.Contains(methods, r.method()) {
+			return ok, methods, err
+		}
 	}
 	return ok, methods, err
 }
